@@ -146,6 +146,38 @@ for _op, (_name, _fmt, _kind, _flow) in sorted(dalvik.OPCODES.items()):
         TYPE[_op] = "I"
     SIG[_op] = sig
 
+# ---- register types fixed by the mnemonic ("binop vAA, vBB, vCC: ... int / long / float / double", unop / conversion tables
+# of the Dalvik bytecode document).  Shift distances are always int (shl-long vAA, vBB(long), vCC(int)).
+REGTYPE = {}
+for _op, (_name, _fmt, _kind, _flow) in sorted(dalvik.OPCODES.items()):
+    if _op > 0xE2:
+        continue
+    base = _name.split("/")[0]
+    parts = base.split("-")
+    t = {}
+    if "-to-" in _name:
+        src_t, dst_t = _name.split("-to-")
+        t = {"A": TYPE_LETTER[dst_t], "B": TYPE_LETTER[src_t]}
+    elif parts[0] in UNOP_TOKEN and _fmt == "12x":
+        t = {"A": TYPE_LETTER[parts[1]], "B": TYPE_LETTER[parts[1]]}
+    elif parts[0] in BINOP_TOKEN and len(parts) == 2 and parts[1] in TYPE_LETTER:
+        L = TYPE_LETTER[parts[1]]
+        shift = parts[0] in ("shl", "shr", "ushr")
+        if _fmt == "23x":
+            t = {"AA": L, "BB": L, "CC": "I" if shift else L}
+        elif _fmt == "12x":
+            t = {"A": L, "B": "I" if shift else L}
+        elif _fmt == "22s":
+            t = {"A": "I", "B": "I"}
+        elif _fmt == "22b":
+            t = {"AA": "I", "BB": "I"}
+    elif parts[0] == "rsub":
+        t = {"A": "I", "B": "I"} if _fmt == "22s" else {"AA": "I", "BB": "I"}
+    elif _name.startswith("cmp"):
+        L = TYPE_LETTER[_name.split("-")[1]]
+        t = {"AA": "I", "BB": L, "CC": L}
+    REGTYPE[_op] = t
+
 # opcodes whose signature is left open: const-string(/jumbo), const-class, check-cast, instance-of,
 # new-instance, new-array, filled-new-array(/range), fill-array-data, invoke-*: only operand roles.
 ROLE_ONLY = sorted(op for op, s in SIG.items() if s is None and op <= 0xE2)
@@ -155,3 +187,4 @@ assert SIG[0x9A] == ("assign", ("reg", "AA"), ("binary", ">>>", ("reg", "BB"), (
 assert SIG[0xD1][2] == ("binary", "-", ("lit", "CCCC"), ("reg", "B"))
 assert SIG[0xBA][2] == ("binary", ">>>", ("reg", "A"), ("reg", "B"))
 assert SIG[0xE2][2] == ("binary", ">>>", ("reg", "BB"), ("lit", "CC"))
+assert REGTYPE[0x81] == {"A": "J", "B": "I"} and REGTYPE[0xA3] == {"AA": "J", "BB": "J", "CC": "I"} and REGTYPE[0xC4]["B"] == "I"
